@@ -18,15 +18,20 @@ LEVEL = 'exploration'
 
 G_OUT = 'pre MO post\n'
 G_ERR = 'pre ME post\n'
-OUTS = {'same': G_OUT, 'match': 'xx MO yy\n', 'nomatch': 'zz\n'}
-ERRS = {'same': G_ERR, 'match': 'xx ME yy\n', 'nomatch': 'zz\n'}
+# 'eol': differs from the golden stream in its line terminator only
+OUTS = {'same': G_OUT, 'match': 'xx MO yy\n', 'nomatch': 'zz\n',
+        'eol': G_OUT.replace('\n', '\r\n')}
+ERRS = {'same': G_ERR, 'match': 'xx ME yy\n', 'nomatch': 'zz\n',
+        'eol': G_ERR.replace('\n', '\r')}
 G_EXIT = 3
 # the cross-check command has a golden behaviour of its own
 C_OUT = 'cc MO out\n'
 C_ERR = 'cc ME err\n'
 C_EXIT = 5
-C_OUTS = {'same': C_OUT, 'match': 'MO only\n', 'nomatch': G_OUT.replace('MO', 'mo')}
-C_ERRS = {'same': C_ERR, 'match': 'ME only\n', 'nomatch': G_ERR.replace('ME', 'me')}
+C_OUTS = {'same': C_OUT, 'match': 'MO only\n', 'nomatch': G_OUT.replace('MO', 'mo'),
+          'eol': C_OUT.replace('\n', '\r\n')}
+C_ERRS = {'same': C_ERR, 'match': 'ME only\n', 'nomatch': G_ERR.replace('ME', 'me'),
+          'eol': C_ERR + '\n'}
 
 
 def outcome_rules(prefix):
@@ -283,7 +288,7 @@ def run(ctx):
         for i in range(8):
             shards.append({'kind': 'cc', 'shard': 100 + i, 'sample': 32})
     else:
-        # full product: 256 (main, cc) option pairs x 18 x 18 outcomes
+        # full product: 256 (main, cc) option pairs x 32 x 32 outcomes
         for i in range(32):
             shards.append({'kind': 'cc', 'shard': 100 + i, 'lo': 8 * i,
                            'hi': 8 * i + 8})
@@ -293,12 +298,12 @@ def run(ctx):
     common.merge_shards(ctx, results)
     ctx.rule = (
         'main command: all 32 settings of --ignore-output/--ignore-out/'
-        '--ignore-err/--match-out/--match-err x all 18 candidate outcomes '
+        '--ignore-err/--match-out/--match-err x all 32 candidate outcomes '
         '(exit same/different x stdout same/differs-with-match/differs-'
-        'without x stderr likewise), exhaustive; with a cross-check command: '
-        + ('sampled option pairs, each with all 18 cc outcomes and all 18 '
+        'without/differs-only-in-line-terminator x stderr likewise), exhaustive; with a cross-check command: '
+        + ('sampled option pairs, each with all 32 cc outcomes and all 32 '
            'main outcomes varied one at a time' if ctx.tier == 'quick' else
-           'all 256 option pairs x 18 x 18 outcomes, exhaustive') +
+           'all 256 option pairs x 32 x 32 outcomes, exhaustive') +
         '; --unchecked with every outcome; argv/extension on end-to-end '
         'runs (7 input names x 3 argument lists x 3 configurations); '
         'distinct non-trivial = distinct (options, outcome) rows')
